@@ -31,9 +31,11 @@ import Sml.Lemmas.DecBasic
     `Rdr.readLoop` recurse on the remaining input); the self-call of `push_byte` in state `Done`
     happens at most once (unfolded in `Dec.pushByte`; its second `Done` arm is a panic outcome,
     which is excluded below).
-  * `encodeBuf : Option Nat → List UInt8 → EncRes` has no panic outcome by its type
-    (`EncRes` is `ok bytes | oom`) and is total, so there is nothing to prove for the buffer
-    encoder beyond its type; C07 shows which of the two results it returns.
+  * `encodeBuf : Option Nat → List UInt8 → EncRes` is total; its only panic site, the slice index
+    `&[0x0; 3][..num_padding_bytes]` (encode.rs:203), is the explicit outcome `EncRes.panic`,
+    excluded by `encodeBuf_no_panic`; C07 shows which of the two remaining results it returns.
+    The index `crc_bytes[(n - 6) as usize]` of the iterator encoder (encode.rs:121) is the explicit
+    outcome `EOut.panic "encode.rs:121 …"`, covered by `encoder_total`.
 
   All theorems hold for every stream / history length and every buffer capacity (`cap = none` is
   `Vec<u8>`, `cap = some n` is `ArrayBuf<n>`).
@@ -75,7 +77,8 @@ theorem inv_bounds {d : Dec} (h : Inv d) :
   ⟨h.zc_le, h.wf, h.len_le_raw, h.raw_ge, fun _ _ hs => h.look hs,
     fun _ hs => ⟨(h.escChars hs).1, (h.escChars hs).2.1⟩, fun _ _ hs => (h.escPayload hs).1⟩
 
-/-! ### (b) every history of `push_byte` / `finalize` / `reset` calls -/
+/-! ### (b) every history of `push_byte` / `finalize` / `reset` calls, with replacements of the
+decoder by `Decoder::new()` / `Decoder::from_buf(buf)` (any stale buffer contents) in between -/
 
 /-- no call in any history panics -/
 theorem no_panic (cap : Option Nat) (ops : List Op) :
@@ -118,8 +121,8 @@ theorem iter_no_panic (cap : Option Nat) (s : List UInt8) (n : Nat) :
     cases hc
 
 /-- `DecoderReader` over any source kind, any sequence of source events (bytes, `WouldBlock`,
-`Interrupted`, other I/O errors, end of input) and any sequence of `read` / `next` / `read_nb` /
-`next_nb` calls -/
+`Interrupted`, other I/O errors, end of input — also mid-stream, `Ev.eof`, with more data
+afterwards) and any sequence of `read` / `next` / `read_nb` / `next_nb` calls -/
 theorem reader_no_panic (kind : SrcKind) (cap : Option Nat) (evs : List Ev) (cs : List Rdr.Call) :
     ∀ x ∈ ((Rdr.new kind cap evs).calls cs).2, ∀ t, x ≠ RItem.panic t :=
   (Rdr.calls_good cs (r := Rdr.new kind cap evs) (Dec.inv_fresh cap)).2
@@ -136,6 +139,15 @@ theorem encoder_total (p : List UInt8) (n : Nat) :
     ∀ o ∈ ((Enc.new p).run n).2, ∀ s, o ≠ EOut.panic s :=
   (Enc.run_good n (Enc.einv_new p)).2
 
+/-- the buffer encoder: the padding slice `&[0x0; 3][..num_padding_bytes]` (encode.rs:203) is
+always in range, for every payload and every buffer capacity -/
+theorem encodeBuf_no_panic (cap : Option Nat) (p : List UInt8) :
+    ∀ s, encodeBuf cap p ≠ EncRes.panic s := by
+  intro s
+  rw [encodeBuf_eq]
+  unfold finish
+  split <;> simp
+
 /-- one answer per call -/
 theorem encoder_run_length (p : List UInt8) (n : Nat) : ((Enc.new p).run n).2.length = n := by
   generalize Enc.new p = e
@@ -149,6 +161,12 @@ theorem encoder_run_length (p : List UInt8) (n : Nat) : ((Enc.new p).run n).2.le
 example : (Dec.run (Dec.fresh (some 4))
       [.push 0x00, .push 0x1b, .reset, .push 0x07, .fin, .fin]).2 =
     [.out .none, .out .none, .reset 2, .out .none, .fin (some (.discarded 1)), .fin none] := by
+  decide
+
+/-- a `from_buf` whose buffer is full of stale bytes, and a `new`, in mid-history -/
+example : (Dec.run (Dec.fresh (some 2))
+      [.push 0x00, .push 0x1b, .fromBuf [7, 8], .push 0x07, .reset, .new, .fin]).2 =
+    [.out .none, .out .none, .fromBuf, .out .none, .reset 1, .new, .fin none] := by
   decide
 
 /-- out-of-memory with `ArrayBuf<1>`: an error value, afterwards the decoder accepts bytes again -/
@@ -165,7 +183,28 @@ example : ((Rdr.new .io none
     [.decErr (.invalidEsc 0x02 0x00 0x00 0x00), .ioErr .other 1, .none, .none] := by
   decide +kernel
 
+/-- mid-stream ends of input (all three source kinds), then more data -/
+example : ((Rdr.new .io (some 2) [.byte 0x1b, .eof, .eof, .byte 0x07]).calls
+      [.next, .read, .nextNb, .next]).2 =
+    [.ioErr .eof 1, .ioErr .eof 0, .ioErr .eof 1, .none] := by
+  decide +kernel
+
+example : ((Rdr.new .eh (some 2) [.byte 0x1b, .eof, .eof, .byte 0x07]).calls
+      [.next, .read, .nextNb, .next]).2 =
+    [.ioErr .other 1, .ioErr .other 0, .nbWouldBlock, .ioErr .wouldBlock 0] := by
+  decide +kernel
+
 /-- the encoder after its end -/
 example : ((Enc.new []).run 18).2.drop 16 = [.none, .none] := by decide +kernel
+
+/-- the encoder passes both CRC index positions (`End(6)`, `End(7)`) -/
+example : ((Enc.new []).run 16).2.drop 14 = [.byte 0xc6, .byte 0xe5] := by decide +kernel
+
+/-- the buffer encoder with all four pad counts, and out of memory in the padding step -/
+example : (encodeBuf none [1]) = EncRes.ok (Spec.frame [1]) ∧
+    (encodeBuf none [1, 2]) = EncRes.ok (Spec.frame [1, 2]) ∧
+    (encodeBuf none [1, 2, 3]) = EncRes.ok (Spec.frame [1, 2, 3]) ∧
+    (encodeBuf none [1, 2, 3, 4]) = EncRes.ok (Spec.frame [1, 2, 3, 4]) ∧
+    encodeBuf (some 10) [1] = EncRes.oom := by decide +kernel
 
 end Sml.C05
